@@ -156,6 +156,58 @@ def _c06():
     }
 
 
+def _c12():
+    hs = []
+    for op in "less_than less_than_or_equal greater_than greater_than_or_equal".split():
+        for c, what in (("numbers", "two numbers: any i32 / any f64 incl. NaN, infinities, -0.0, subnormals; mixed int/float"), ("chars", "two chars (all scalar values)"), ("bytes", "two bytes"), ("char_lists", "two char lists of length 0..3, all chars"), ("byte_lists", "two byte lists of length 0..3"), ("other", "any other pair of operand types (symbolic tags, 20 x 20 minus the comparable pairs)")):
+            hs.append(H("c12_%s_%s" % (op, c), "rel", "quick", "%s on %s: agrees with the natural order (numeric / lexicographic with the shorter prefix first); unit when a float is NaN; false on other types; never an error" % (op, what)))
+    return {
+        "claim": "LessThan, LessThanOrEqual, GreaterThan and GreaterThanOrEqual agree with the natural total order on two numbers (integers and floats mixed, full width, every f64), two chars, two bytes, two char lists and two byte lists (length 0..3); yield unit when a float operand is NaN and false on every other pair of operand types; never fail. Since each instruction is compared with the same reference order, trichotomy, <=/> duality and a<b iff b>a follow.",
+        "functions": ["runtime/src/runtime/comparison.rs less_than, less_than_or_equal, greater_than, greater_than_or_equal, perform_comparison, cmp_list", "data/src/data/number.rs PartialOrd / PartialEq for SimpleNumber", "runtime/src/execute.rs"],
+        "bounds": "one instruction step on the contract model; lists of length 0..3; numbers full width",
+        "outside": "lists longer than 3; slices; the two shipped stores' get_char_list_item / get_byte_list_item (SimpleGarnishData returns Err past the end: DESIGN.md section 8)",
+        "assumptions": ["contract model of the data trait (get_*_list_item answers Ok(None) past the end)"],
+        "harnesses": hs,
+    }
+
+
+EQ_TAGS = "unit true false number char byte symbol symbol_list char_list byte_list pair list concatenation".split()
+
+
+def _c11():
+    hs = []
+    for t in EQ_TAGS:
+        tier = "quick" if t in ("number", "char", "char_list", "pair", "list", "concatenation", "unit", "symbol") else "thorough"
+        for neg in ("equal", "not_equal"):
+            hs.append(H("c11_%s_%s" % (neg, t), "rel", tier if neg == "equal" else "thorough" if tier == "thorough" or t in ("unit", "symbol", "char") else "quick", "%s with a left operand of type %s (symbolic contents; children shared with the right operand) and a right operand of symbolic type among the types C11 lists, or the left operand itself: result == the reference structural equality (numbers numerically, char/byte vs one-element list, pairs component-wise, lists and concatenations as flat item sequences), nothing left on the operand stack" % (neg, t)))
+    return {
+        "claim": "Equal holds exactly when the reference structural equality (harness/src/bodies/relations.rs ref_eq, written from the property statement) holds, NotEqual is its negation, both leave exactly one boolean and the registers below untouched however early they decide. Reflexivity is covered by passing the same value twice, symmetry and transitivity follow from agreement with the (symmetric, transitive) reference on both operand orders.",
+        "functions": ["runtime/src/runtime/equality.rs equal, not_equal, perform_equality_check, data_equal, compare_*, push_iterator_values, match_last_iter_values", "data/src/data/number.rs PartialEq for SimpleNumber", "runtime/src/execute.rs"],
+        "bounds": "one instruction step on the contract model; operand types restricted to those C11 lists (unit, booleans, numbers, chars, bytes, symbols, symbol lists, char lists, byte lists, pairs, lists, concatenations); left operand type concrete per harness, right operand type symbolic; list-like values of length 0..2; nesting depth 2 below the operands; integer payloads full width",
+        "outside": "ranges, slices, partials, expressions, externals, types, custom values; float payloads inside structures; deeper or longer values; the shipped stores' iterators",
+        "assumptions": ["contract model of the data trait, incl. its flat concatenation iterator"],
+        "harnesses": hs,
+    }
+
+
+def _c16():
+    hs = [
+        H("c16_access_list", "rel", "quick", "Access on a list of 0..3 items over {number, symbol, pair keyed by symbol (distinct keys), pair keyed by number, nested list} with a symbolic integer index or symbol: item k at index k, unit outside 0..n-1, value of the keyed pair or unit; never an error"),
+        H("c16_apply_list", "rel", "quick", "Apply (list <~ index / symbol), same oracle"),
+        H("c16_access_length_internal_list", "rel", "quick", "length of the same lists == n"),
+        H("c16_access_concat", "rel", "quick", "Access on the concatenation of two such lists (split point symbolic), same oracle"),
+        H("c16_access_length_internal_concat", "rel", "quick", "length of the concatenation == n"),
+    ]
+    return {
+        "claim": "Through the runtime (Access, Apply, AccessLengthInternal, make_list via the corpus programs) a list of items i1..in reports length n, yields ik at index k, unit outside 0..n-1, and the value of the pair keyed by a symbol when it contains one, unit otherwise - never an error - for every mix of keyed and unkeyed items with distinct symbols, and the same for a concatenation of two such lists.",
+        "functions": ["runtime/src/runtime/list.rs access_with_integer, access_with_symbol, index_list, index_concatenation_for, get_value_if_association", "runtime/src/runtime/access.rs, apply.rs, internals.rs", "traits/src/helpers/concatenation.rs iterate_concatenation_mut, iterate_rev_concatenation_mut"],
+        "bounds": "lists of 0..3 items, symbols full u64 (distinct), index full i32; contract model of the data trait",
+        "outside": "the two shipped stores' own list construction and lookup (SimpleGarnishData: address-modulo placement; BasicGarnishData: sorted associations + binary search) - on symbolic keys these did not finish (DESIGN.md probe 35); float indexes; lists longer than 3",
+        "assumptions": ["the data object honours the contract: get_list_item answers Ok(None) outside the list, get_list_item_with_symbol finds the keyed pair"],
+        "harnesses": hs,
+    }
+
+
 def _c17():
     hs = disp_harnesses(["apply"], tags=["external"]) + disp_harnesses(["empty_apply"], tags=["external"])
     return {
@@ -285,6 +337,9 @@ PROPERTIES_STATIC = {
     "C08": _c08(),
     "C09": _c09(),
     "C10": _c10(),
+    "C11": _c11(),
+    "C12": _c12(),
+    "C16": _c16(),
     "C17": _c17(),
 }
 
